@@ -353,23 +353,25 @@ func (p *Peer) pushLogToReplicators(lg event.Update) {
 		log.ErrorE("Failed to notify new blocks", err)
 	}
 
+	// copy the peer ids while holding the lock: updateReplicators modifies the inner map
 	p.server.mu.Lock()
-	reps, exists := p.server.replicators[lg.CollectionID]
+	reps := make([]peer.ID, 0, len(p.server.replicators[lg.CollectionID]))
+	for pid := range p.server.replicators[lg.CollectionID] {
+		reps = append(reps, pid)
+	}
 	p.server.mu.Unlock()
 
-	if exists {
-		for pid := range reps {
-			go func(peerID peer.ID) {
-				if err := p.server.pushLog(lg, peerID); err != nil {
-					log.ErrorE(
-						"Failed pushing log",
-						err,
-						corelog.String("DocID", lg.DocID),
-						corelog.Any("CID", lg.Cid),
-						corelog.Any("PeerID", peerID))
-				}
-			}(pid)
-		}
+	for _, pid := range reps {
+		go func(peerID peer.ID) {
+			if err := p.server.pushLog(lg, peerID); err != nil {
+				log.ErrorE(
+					"Failed pushing log",
+					err,
+					corelog.String("DocID", lg.DocID),
+					corelog.Any("CID", lg.Cid),
+					corelog.Any("PeerID", peerID))
+			}
+		}(pid)
 	}
 }
 
